@@ -162,8 +162,35 @@ fn sender_regular(source: &Path, mode: CompressionDetection) -> (Compression, Ro
 fn opt_s(m: Option<u64>) -> String { m.map(|s| s.to_string()).unwrap_or_else(|| "_".into()) }
 
 /// run `receive-file`, return the driver-notation result
-fn real_receive_file(bin: &Path, home: &Path, dest: &Path, stdin: &[u8], mtime: Option<u64>) -> (String, Option<u32>) {
+/// what the destination path holds before a helper runs: nothing (half of the cases), or a file of
+/// non-zero bytes that is as long as, longer or shorter than what will be written
+fn gen_prior(rng: &mut Rng, new_len: usize) -> Option<Vec<u8>> {
+    let len = match rng.below(8) {
+        0 | 1 | 2 | 3 => return None,
+        4 => new_len,
+        5 => new_len + 1 + rng.below(5000) as usize,
+        6 => new_len / 2,
+        _ => 1,
+    };
+    Some((0..len).map(|i| 0xA1u8.wrapping_add((i % 89) as u8) | 1).collect())
+}
+
+fn put_prior(dest: &Path, prior: Option<&[u8]>) {
     let _ = std::fs::remove_file(dest);
+    if let Some(p) = prior {
+        if let Some(d) = dest.parent() { let _ = std::fs::create_dir_all(d); }
+        std::fs::write(dest, p).unwrap();
+    }
+}
+
+fn prior_s(prior: Option<&[u8]>) -> String { match prior { Some(p) => hex(p), None => "-".into() } }
+
+fn real_receive_file(bin: &Path, home: &Path, dest: &Path, stdin: &[u8], mtime: Option<u64>) -> (String, Option<u32>) {
+    real_receive_file_over(bin, home, dest, None, stdin, mtime)
+}
+
+fn real_receive_file_over(bin: &Path, home: &Path, dest: &Path, prior: Option<&[u8]>, stdin: &[u8], mtime: Option<u64>) -> (String, Option<u32>) {
+    put_prior(dest, prior);
     let mut args = vec!["receive-file".to_string(), dest.to_string_lossy().into_owned()];
     if let Some(s) = mtime { args.push("--mtime".into()); args.push(s.to_string()); }
     let o = run_helper(bin, home, &args, stdin);
@@ -298,7 +325,9 @@ pub fn run(tier: &str, seed: u64, driver_path: &str, work: &Path) -> Report {
         }
         match route {
             Route::Helper { stdin, mtime } => {
-                let (imp, ns) = real_receive_file(&bin, &home, &dest, &stdin, mtime);
+                let prior = gen_prior(&mut rng, x.len());
+                rep.tag(match &prior { None => "s.prior.absent", Some(p) if p.len() > x.len() => "s.prior.longer", Some(p) if p.len() == x.len() => "s.prior.same-size", Some(_) => "s.prior.shorter" });
+                let (imp, ns) = real_receive_file_over(&bin, &home, &dest, prior.as_deref(), &stdin, mtime);
                 // oracle: exactly the original bytes, exactly the source mtime in whole seconds
                 let want_prefix = format!("ok {} ", hex(&x));
                 if !imp.starts_with(&want_prefix) { lim.oracle_fail(&mut rep, "C14/receive-file-content-differs", "file written by sy-remote receive-file differs from the source (or the helper failed)",
@@ -306,8 +335,8 @@ pub fn run(tier: &str, seed: u64, driver_path: &str, work: &Path) -> Report {
                 else if imp != format!("{}{}", want_prefix, secs) || ns != Some(0) { lim.oracle_fail(&mut rep, "C14/receive-file-mtime-differs", "mtime of the written file is not the source mtime truncated to whole seconds",
                     json!({"kind":kind,"src_secs":secs,"src_nanos":nanos,"got":imp.rsplit(' ').next(),"got_nanos":ns})); }
                 if small {
-                    let m = drv.ask(&format!("compress.recv {} {} {}", hex(&stdin), opt_s(mtime), dz_of(&stdin)));
-                    if m != imp { lim.disagree(&mut rep, json!({"stream":"compress.recv","stdin":hex(&stdin),"mtime":mtime,"impl":imp,"model":m})); }
+                    let m = drv.ask(&format!("compress.recvover {} {} {} {}", prior_s(prior.as_deref().filter(|p| p.len() <= MODEL_MAX * 2)), hex(&stdin), opt_s(mtime), dz_of(&stdin)));
+                    if m != imp { lim.disagree(&mut rep, json!({"stream":"compress.recvover","stdin":hex(&stdin),"mtime":mtime,"prior_len":prior.as_ref().map(|p| p.len()),"impl":imp,"model":m})); }
                 }
                 rep.tag("s.route.helper");
             }
@@ -397,6 +426,9 @@ pub fn run(tier: &str, seed: u64, driver_path: &str, work: &Path) -> Report {
                 went_sparse = true;
                 let mut args = vec!["receive-sparse-file".to_string(), dest.to_string_lossy().into_owned(), "--total-size".into(), total.to_string(), "--regions".into(), regions_json.clone()];
                 if let Some(s) = mt { args.push("--mtime".into()); args.push(s.to_string()); }
+                let prior = gen_prior(&mut rng, total as usize);
+                rep.tag(match &prior { None => "p.prior.absent", Some(p) if p.len() as u64 > total => "p.prior.longer", Some(p) if p.len() as u64 == total => "p.prior.same-size", Some(_) => "p.prior.shorter" });
+                put_prior(&dest, prior.as_deref());
                 let o = run_helper(&bin, &home, &args, &buf);
                 let got = if o.ok { std::fs::read(&dest).ok() } else { None };
                 match &got {
@@ -405,12 +437,12 @@ pub fn run(tier: &str, seed: u64, driver_path: &str, work: &Path) -> Report {
                         if s != secs || ns != 0 { lim.oracle_fail(&mut rep, "C14/sparse-mtime-differs", "mtime of the file written by receive-sparse-file is not the source mtime in whole seconds", json!({"src":[secs,nanos],"got":[s,ns]})); }
                     }
                     _ => lim.oracle_fail(&mut rep, "C14/sparse-content-differs", "file written by sy-remote receive-sparse-file differs from the source (or the helper failed)",
-                            json!({"layout":l.kind,"size":l.size,"writes":l.writes.iter().map(|(o, d)| json!([o, d.len()])).collect::<Vec<_>>(),"regions":regions_json,"stderr":o.stderr})),
+                            json!({"layout":l.kind,"size":l.size,"writes":l.writes.iter().map(|(o, d)| json!([o, d.len()])).collect::<Vec<_>>(),"regions":regions_json,"prior_len":prior.as_ref().map(|p| p.len()),"stderr":o.stderr})),
                 }
                 if small {
                     let imp = match &got { Some(g) => format!("ok {} {}", hex(g), get_mtime(&dest).0), None => "err".into() };
-                    let m = drv.ask(&format!("sparse.recv {} {} {} {}", total, hex(regions_json.as_bytes()), hex(&buf), opt_s(mt)));
-                    if m != imp { lim.disagree(&mut rep, json!({"stream":"sparse.recv","layout":l.kind,"size":l.size,"regions":regions_json,"impl":if imp.len() < 300 { imp.clone() } else { "ok …".into() },"model":if m.len() < 300 { m.clone() } else { "ok …".into() }})); }
+                    let m = drv.ask(&format!("sparse.recvover {} {} {} {} {}", prior_s(prior.as_deref()), total, hex(regions_json.as_bytes()), hex(&buf), opt_s(mt)));
+                    if m != imp { lim.disagree(&mut rep, json!({"stream":"sparse.recvover","prior_len":prior.as_ref().map(|p| p.len()),"layout":l.kind,"size":l.size,"regions":regions_json,"impl":if imp.len() < 300 { imp.clone() } else { "ok …".into() },"model":if m.len() < 300 { m.clone() } else { "ok …".into() }})); }
                     // helper-only: damaged argument / short stdin / regions out of order (K only)
                     if i % 2 == 0 {
                         let rs = detected.as_ref().unwrap();
@@ -471,7 +503,9 @@ pub fn run(tier: &str, seed: u64, driver_path: &str, work: &Path) -> Report {
         // an all-hole file makes the first SEEK_DATA fail with ENXIO: detect_data_regions reports Unsupported,
         // the copier takes its "all holes" exit (local.rs:72-80) — no region is copied
         let regions = match detect_data_regions(&sp) { Ok(r) => r, Err(_) if content.iter().all(|b| *b == 0) => Vec::new(), Err(_) => { rep.tag("l.detect-error"); continue } };
-        { let _ = std::fs::remove_file(&ldst); let f = std::fs::File::create(&ldst).unwrap(); f.set_len(10 * MIB).unwrap(); }
+        { let _ = std::fs::remove_file(&ldst);
+          if rng.chance(1, 2) { let f = std::fs::File::create(&ldst).unwrap(); f.set_len(10 * MIB).unwrap(); rep.tag("l.prior.hole-only"); }
+          else { std::fs::write(&ldst, vec![0xA5u8; 10 * MIB as usize]).unwrap(); rep.tag("l.prior.stale-bytes"); } }
         use sy::transport::Transport;
         let res = rt.block_on(lt.sync_file_with_delta(&sp, &ldst));
         let got = std::fs::read(&ldst).unwrap_or_default();
